@@ -195,6 +195,52 @@ def pinned_fntext():
     return _FNTEXT
 
 
+LOOP_RX = r'(?<![\w.!])(while|for|loop)\b(?!\s*<)'
+
+
+def carry_loop(pinned_lines, text, cls, bo, bc, n):
+    """the n-th loop of the PINNED text of the function, located in the current text by a line diff.
+    returns a match object of the current text, 'gone', or None (no pinned text / cannot tell)"""
+    import difflib
+    if not pinned_lines:
+        return None
+    ptext = '\n'.join(pinned_lines)
+    pcls = classify(ptext)
+    ploops = [m for m in find_code(ptext, pcls, LOOP_RX)]
+    if n < 1 or n > len(ploops):
+        return None
+    pm = ploops[n - 1]
+    ip = ptext.count('\n', 0, pm.start())
+    kp = sum(1 for m in ploops[:n - 1] if ptext.count('\n', 0, m.start()) == ip)
+    cur_lines = [ln.strip() for ln in text.split('\n')]
+    sm = difflib.SequenceMatcher(None, pinned_lines, cur_lines, autojunk=False)
+    jc = None
+    for tag, i1, i2, j1, j2 in sm.get_opcodes():
+        if i1 <= ip < i2:
+            if tag == 'equal' or (tag == 'replace' and (i2 - i1) == (j2 - j1)):
+                jc = j1 + (ip - i1)
+            elif tag == 'replace':
+                cands = [j for j in range(j1, j2) if re.search(LOOP_RX, cur_lines[j])]
+                jc = cands[0] if len(cands) == 1 else None
+                if jc is None:
+                    return 'gone'
+            else:
+                return 'gone'
+    if jc is None:
+        return 'gone'
+    # offsets of line jc in text
+    off = 0
+    for idx, ln in enumerate(text.split('\n')):
+        if idx == jc:
+            break
+        off += len(ln) + 1
+    end = off + len(text.split('\n')[jc])
+    here = [m for m in find_code(text, cls, LOOP_RX, bo, bc) if off <= m.start() <= end]
+    if kp < len(here):
+        return here[kp]
+    return 'gone'
+
+
 def carry_anchor(pinned_lines, cur_lines, anchor, k, kind):
     """position (index into cur_lines, 'at start of that line') for a hint anchored before/after the k-th line `anchor`
     of the pinned text, or None"""
@@ -380,10 +426,17 @@ def expand_fn(src, qual, opts, sections, tline0, notes, drop_hints=False):
         if s['kind'] == 'spec':
             inserts.append((bo, sec_lines(s)))
         elif s['kind'] == 'loop':
-            loops = [m for m in find_code(text, cls, r'(?<![\w.!])(while|for|loop)\b(?!\s*<)', bo, bc)]
-            if s['n'] > len(loops) or s['n'] < 1:
-                raise GenError('%s %s: loop %d not found (%d loops)' % (src.rel, qual, s['n'], len(loops)))
-            lk = loops[s['n'] - 1]
+            loops = [m for m in find_code(text, cls, LOOP_RX, bo, bc)]
+            # loops are numbered in the PINNED text of the function; the n-th one is located in the current text by a line
+            # diff (a loop that was removed takes its annotations with it: LOOP-GONE; the others keep theirs)
+            lk = carry_loop(pinned_fntext().get('%s::%s' % (src.rel, qual)), text, cls, bo, bc, s['n'])
+            if lk == 'gone':
+                notes.append({'id': 'LOOP-GONE', 'what': 'loop %d of the pinned text of %s is gone; its annotations are dropped' % (s['n'], qual), 'file': src.rel, 'fn': qual})
+                continue
+            if lk is None:
+                if s['n'] > len(loops) or s['n'] < 1:
+                    raise GenError('%s %s: loop %d not found (%d loops)' % (src.rel, qual, s['n'], len(loops)))
+                lk = loops[s['n'] - 1]
             # only the loop KEYWORD is an anchor; a changed condition must reach the verifier, not stop here
             if 'expect' in s and lk.group(1) != s['expect'].split()[0]:
                 raise GenError('%s %s: loop %d is now a `%s` loop (expected %r)' % (src.rel, qual, s['n'], lk.group(1), s['expect']))
@@ -404,10 +457,17 @@ def expand_fn(src, qual, opts, sections, tline0, notes, drop_hints=False):
                 raise GenError('%s %s: loop %d body not found' % (src.rel, qual, s['n']))
             inserts.append((lb, sec_lines(s)))
         elif s['kind'] == 'loopend':
-            loops = [m for m in find_code(text, cls, r'(?<![\w.!])(while|for|loop)\b(?!\s*<)', bo, bc)]
-            if s['n'] > len(loops) or s['n'] < 1:
-                raise GenError('%s %s: loop %d not found (%d loops)' % (src.rel, qual, s['n'], len(loops)))
-            lk = loops[s['n'] - 1]
+            loops = [m for m in find_code(text, cls, LOOP_RX, bo, bc)]
+            # loops are numbered in the PINNED text of the function; the n-th one is located in the current text by a line
+            # diff (a loop that was removed takes its annotations with it: LOOP-GONE; the others keep theirs)
+            lk = carry_loop(pinned_fntext().get('%s::%s' % (src.rel, qual)), text, cls, bo, bc, s['n'])
+            if lk == 'gone':
+                notes.append({'id': 'LOOP-GONE', 'what': 'loop %d of the pinned text of %s is gone; its annotations are dropped' % (s['n'], qual), 'file': src.rel, 'fn': qual})
+                continue
+            if lk is None:
+                if s['n'] > len(loops) or s['n'] < 1:
+                    raise GenError('%s %s: loop %d not found (%d loops)' % (src.rel, qual, s['n'], len(loops)))
+                lk = loops[s['n'] - 1]
             depth = 0
             lb = None
             for i in range(lk.end(), bc):
